@@ -39,19 +39,19 @@ Proof.
 Qed.
 
 (* 2. a.c and b.c include h.h, which has a finding; a.c is up to date in the build
-      directory (its cached finding is replayed, checkInternal returns before
-      mLogger->clear()), b.c is analysed: its copy of the finding is a duplicate and is
-      not recorded in b.c's analyzer information *)
+      directory (its cached finding is replayed, checkInternal returns before the final
+      mLogger->clear(), the text stays in the list), b.c is analysed: since fix 8cb695c the
+      list is emptied at the start of b.c, its copy of the finding is recorded *)
 Definition ca : fileA := mkFA A_C Cached [] [] [] [mkRaw 0 ZERODIV H_H 1 [] true TXT_H] [].
 Definition cb : fileA := mkFA B_C Full [] [] [] [] [(Some [], [mkRaw 0 ZERODIV H_H 1 [] true TXT_H])].
 
-Lemma cached_return_keeps_duplicates :
+Lemma cached_return_isolated :
   exists S1 o1 S2 o2 Sa oa,
     check_file pm_plain true (fresh_state [] []) ca = Some (S1, o1)
     /\ check_file pm_plain true S1 cb = Some (S2, o2)
     /\ check_file pm_plain true (fresh_state [] []) cb = Some (Sa, oa)
-    /\ map o_rec oa = [true] /\ map o_rec o2 = [false]
-    /\ l_seen (i_log S1) = [TXT_H].
+    /\ l_seen (i_log S1) = [TXT_H]
+    /\ map o_rec oa = [true] /\ map o_rec o2 = [true] /\ o2 = oa.
 Proof. vm_compute. do 6 eexists. repeat split; reflexivity. Qed.
 
 (* hypotheses of the isolation theorem are satisfiable by non-trivial files *)
